@@ -116,6 +116,9 @@ partial def gP : P G := do
   | "oneof" => pure (.oneOf (← natList))
   | "noneof" => pure (.noneOf (← natList))
   | "select" => pure (.select (← natList))
+  -- `any_ref()` / `select_ref!`: the by-reference primitives (`BorrowInput::next_ref`) read the same token as the by-value ones
+  | "anyref" => pure .any
+  | "selectref" => pure (.select (← natList))
   | "cnext" => pure (.custom (.next (← nat)))
   | "ctake2" => pure (.custom (.take2Fail (← nat)))
   | "cnothing" => pure (.custom .nothing)
